@@ -49,7 +49,17 @@ pub fn split(s: &str) -> Option<Parts> {
 }
 
 pub const SCHEMES: [&str; 4] = ["http", "https", "ipp", "ipps"];
-pub const USERINFOS: [Option<&str>; 7] = [None, Some("u"), Some("u:p"), Some(":p"), Some("u%40x:p%3A"), Some("a.b:c%2Fd"), Some("joe@example.com:s3cret")];
+pub const USERINFOS: [Option<&str>; 8] = [
+    None,
+    Some("u"),
+    Some("u:p"),
+    Some(":p"),
+    Some("u%40x:p%3A"),
+    Some("a.b:c%2Fd"),
+    Some("joe@example.com:s3cret"),
+    // contains the host strings "h", "1.2.3.4" and "HOST" (a host that is also the user name is common: pi@pi)
+    Some("h:1.2.3.4HOST"),
+];
 pub const HOSTS: [&str; 8] = [
     "h",
     "printer.example.com",
@@ -129,7 +139,7 @@ mod tests {
 
     #[test]
     fn split_roundtrip_on_product() {
-        assert_eq!(total(), 54880);
+        assert_eq!(total(), 62720);
         for i in 0..total() {
             let c = case(i);
             let p = split(&c.text).unwrap();
